@@ -764,3 +764,14 @@ func Main() {
 		os.Exit(2)
 	}
 }
+
+// MatchSeq matches a sequential-check violation (family name, message).
+func (k *KnownFinding) MatchSeq(family, msg string) bool {
+	if k.reM == nil {
+		return false
+	}
+	if k.reS != nil && !k.reS.MatchString(family) {
+		return false
+	}
+	return k.reM.MatchString(msg)
+}
